@@ -182,10 +182,23 @@ pub fn run(ctx: &mut Ctx) {
         }
         // (2) prefix property: max_iter = k returns the k-th iterate of the long run, bit for bit
         let kmax = long.iterations.min(if ctx.thorough() { 40 } else { 25 });
+        // in a third of the cases the budget-limited runs are re-solves of ONE solver object (whose state is
+        // whatever the previous, differently limited solve left behind) instead of fresh solvers
+        let mut reused = if case % 3 == 1 { problem::new_solver(&p, &st).ok() } else { None };
+        if reused.is_some() {
+            ctx.bump("prefix_runs_on_a_reused_solver_object");
+        }
         for k in 0..=kmax {
             let mut sk = st.clone();
             sk.max_iter = k;
-            let short = match problem::run(&p, &sk) {
+            let attempt = match reused.as_mut() {
+                Some(solver) => {
+                    solver.settings.max_iter = k;
+                    problem::solve_observed(solver).map(|ev| problem::extract(solver, ev))
+                }
+                None => problem::run(&p, &sk),
+            };
+            let short = match attempt {
                 Ok(r) => r,
                 Err(msg) => {
                     ctx.violation("prefix_run_panicked", "prefix_run_panicked", wl, case, case_json(&p, &sk, &long, json!({"k": k, "panic": msg})));
@@ -207,7 +220,7 @@ pub fn run(ctx: &mut Ctx) {
                 }
             };
             if !same_bits(&fs, rf) {
-                ctx.violation("prefix_iterate_differs", "prefix_iterate_differs", wl, case, case_json(&p, &sk, &long, json!({"k": k, "short_tau": fs.τ, "long_tau": rf.τ, "short_status": status_name(short.status), "long_status": status_name(long.status), "long_iterations": long.iterations})));
+                ctx.violation("prefix_iterate_differs", if reused.is_some() { "prefix_iterate_differs:reused_solver" } else { "prefix_iterate_differs" }, wl, case, case_json(&p, &sk, &long, json!({"k": k, "short_tau": fs.τ, "long_tau": rf.τ, "short_status": status_name(short.status), "long_status": status_name(long.status), "long_iterations": long.iterations})));
                 break;
             }
             // returned solution = that internal iterate un-scaled with the public equilibration (8 ulp)
